@@ -89,6 +89,7 @@ def run(db, chk, quad: bool = False) -> None:
     _published_parent(db, chk, old)
     _thread_identity(db, chk, new, old)
     _host_thread_recognition(db, chk, new, old)
+    _no_default_filter(db, chk, old)
     chk.floor("C03.O4-tie-rules", 12)
     chk.floor("C03.O3-strict-weak-order", 2)
     chk.floor("C03.R3-builder", 8)
@@ -343,12 +344,11 @@ def _published_parent(db, chk, old):
     chk.floor(rule, 2)
 
 
-def _thread_identity(db, chk, new, old):
+def _thread_identity(db, chk, new, old, rule="C03.R7-thread-identity", only_builder_of_critical_path=False):
     """one call stack per host THREAD: the per-rank frame is split by (pid, tid) - a tid alone does not identify a thread (forked workers,
     pid namespaces, a host tid equal to a device stream id)"""
-    rule = "C03.R7-thread-identity"
     cgm = db.mod("hta.common.trace_call_graph")
-    for mod, q in ((old, "CallGraph._construct_call_graph"), (cgm, "CallGraph._build_call_stacks")):
+    for mod, q in ((old, "CallGraph._construct_call_graph"), (cgm, "CallGraph._build_call_stacks"))[:1 if only_builder_of_critical_path else 2]:
         f = mod.func(q)
         gbs = [c for c in ast.walk(f) if isinstance(c, ast.Call) and isinstance(c.func, ast.Attribute) and c.func.attr == "groupby"]
         loops = [n for n in ast.walk(f) if isinstance(n, ast.For) and any(g is n.iter or any(g is x for x in ast.walk(n.iter)) for g in gbs)]
@@ -360,7 +360,7 @@ def _thread_identity(db, chk, new, old):
         ok = isinstance(keys, list) and sorted(keys) == ["pid", "tid"]
         chk.ob(rule, f"{mod.name}:{q}: the events are split into threads by (pid, tid)", ok if keys is not None else None, mod.loc(f), found=keys, accepted=["pid", "tid"],
                why="two processes of one rank may reuse a tid: their events, each properly nested, would be interleaved in ONE stack and get parents from the other thread")
-    chk.floor(rule, 2)
+    chk.floor(rule, 1 if only_builder_of_critical_path else 2)
 
 
 def _host_thread_recognition(db, chk, new, old):
@@ -396,3 +396,25 @@ def _host_thread_recognition(db, chk, new, old):
                why="`pid == 0 or tid == 0 -> GPU` skips a host thread numbered 0: none of its events appears in the call stack",
                key=f"{mod.name}->{dm.name}:{q}|gpu-by-pid-or-tid")
     chk.floor(rule, 2)
+
+
+def _no_default_filter(db, chk, m):
+    """'every host event of the thread is a node': the only events left out of a stack are those the CALLER's filter removes.  Along CallGraph.__init__ ->
+    _construct_call_graph -> CallStackGraph.__init__ the filter parameter defaults to None, is forwarded unchanged and is applied only when it is not None."""
+    rule = "C03.R9-no-default-filter"
+    n = 0
+    for q, f in sorted(m.functions.items()):
+        if not isinstance(f, (ast.FunctionDef,)) or "filter_func" not in H.param_names(f):
+            continue
+        n += 1
+        where = m.loc(f)
+        d = H.param_default(f, "filter_func")
+        chk.ob(rule, f"{q}: the event filter is optional and absent by default", d is None or (isinstance(d, ast.Constant) and d.value is None), where, found=ast.unparse(d) if d is not None else "required parameter",
+               accepted="filter_func=None", why="a default filter silently removes events (e.g. zero-duration calls) from every stack built without an explicit filter")
+        rb = [(p_, txt, v) for p_, txt, v in H.rebinds_of_params(f, ["filter_func"])]
+        chk.ob(rule, f"{q}: the caller's filter is forwarded as given (never replaced, not even when it is None)", not rb, where, found=[x[1] for x in rb] or "not re-bound", accepted="no assignment to filter_func",
+               why="`if filter_func is None: filter_func = ZeroDurationFilter` makes the default graph drop host events the property counts as nodes")
+        for t, v, st_ in H.assignments(f):
+            if H.is_self_attr(t, "filter_func"):
+                chk.ob(rule, f"{q}: the stored filter is the parameter", H.name_id(v) == "filter_func", m.loc(st_), found=ast.unparse(v)[:80], accepted="self.filter_func = filter_func")
+    chk.floor(rule, 4)
